@@ -188,18 +188,18 @@ class GetItem(Contract):
 
 
 def _parked():
-    from contracts import c10_subset
-    return c10_subset.parked()
+    from contracts import c10_subset, c10_tables
+    return c10_subset.parked() + c10_tables.parked()
 
 
 # contracts that FAIL on the unchanged tree because nutils misbehaves (candidate defects, notes/C10-c10.md); kept, not weakened, and
-# left out of contracts() until the lead decides fix vs known finding.  `VERIF_C10_PARKED=1 ./check C10 --only nothing-kept` runs them.
+# left out of contracts() until the lead decides fix vs known finding.  `VERIF_C10_PARKED=1 ./check C10 --only nothing-kept` (or `--only two-elements-per-period`) runs them.
 PARKED = _parked()
 
 
 def contracts():
-    from contracts import c10_structured, c10_subset
-    return [Interfaces(), Boundaries(), Refined(), RefinedBoundaries(), Opposite(), GetItem()] + c10_structured.contracts() + c10_subset.contracts() + (PARKED if os.environ.get('VERIF_C10_PARKED') else [])
+    from contracts import c10_structured, c10_subset, c10_tables
+    return [Interfaces(), Boundaries(), Refined(), RefinedBoundaries(), Opposite(), GetItem()] + c10_structured.contracts() + c10_subset.contracts() + c10_tables.contracts() + (PARKED if os.environ.get('VERIF_C10_PARKED') else [])
 
 
 TRUSTED = ['pyvc symbolic executor; generator DimAxis.boundaries evaluated eagerly; Axis.map as (i + ielem) mod period (proved inverse of unmap in C11)',
